@@ -94,6 +94,7 @@ func (c *hookConn) setHook(h func([]byte) error) { c.mu.Lock(); c.hook = h; c.mu
 type pingRun struct {
 	p       int
 	v6      bool
+	fromRouter bool // internal ping-with-source (VerifPingFrom), source IP = the router's, as ValidateDefaultRouter does
 	mode    byte
 	tmoTok  string        // timeout field of the token: <ms>, n<ns> or huge
 	raw     time.Duration // the timeout ARGUMENT handed to Ping/Ping6
@@ -195,6 +196,16 @@ func decodeEchoRequest(f []byte) (dst netip.Addr, id int, ok bool) {
 	return
 }
 
+func (pr *pingRun) fam() string {
+	switch {
+	case pr.v6:
+		return "6"
+	case pr.fromRouter:
+		return "r"
+	}
+	return "4"
+}
+
 func (pr *pingRun) dstIP() netip.Addr {
 	if pr.v6 {
 		return peerIP6(pr.p)
@@ -230,6 +241,8 @@ func (e *executor) launchOn(pr *pingRun, gate chan struct{}, s *packet.Session) 
 		}
 		if pr.v6 {
 			err = s.Ping6(src, dst, pr.raw)
+		} else if pr.fromRouter {
+			err = s.VerifPingFrom(packet.Addr{MAC: lib.HostMAC, IP: lib.RouterIP4}, dst, pr.raw)
 		} else {
 			err = s.Ping(dst, pr.raw)
 		}
@@ -303,7 +316,7 @@ func (e *executor) waitBegun(prs []*pingRun) {
 
 func parseB(tok string) (*pingRun, bool) {
 	f := strings.Split(tok, ".")
-	if len(f) != 4 || (f[0] != "b4" && f[0] != "b6") || len(f[2]) != 1 || !strings.Contains("gaw", f[2]) {
+	if len(f) != 4 || (f[0] != "b4" && f[0] != "b6" && f[0] != "br") || len(f[2]) != 1 || !strings.Contains("gaw", f[2]) {
 		return nil, false
 	}
 	p, e1 := strconv.Atoi(f[1])
@@ -311,7 +324,7 @@ func parseB(tok string) (*pingRun, bool) {
 	if e1 != nil || !ok || p < 0 {
 		return nil, false
 	}
-	return &pingRun{p: p, v6: f[0] == "b6", mode: f[2][0], tmoTok: f[3], raw: raw, id: -1, hookID: -1}, true
+	return &pingRun{p: p, v6: f[0] == "b6", fromRouter: f[0] == "br", mode: f[2][0], tmoTok: f[3], raw: raw, id: -1, hookID: -1}, true
 }
 
 // parseTmo: <ms> (decimal, may be 0 or negative), n<ns>, huge (2^62 ns)
@@ -369,7 +382,7 @@ func (e *executor) parseFrame(f []byte) {
 func (e *executor) stepAt(toks []string, i int) int {
 	tok := toks[i]
 	switch {
-	case strings.HasPrefix(tok, "q4.") || strings.HasPrefix(tok, "q6."):
+	case strings.HasPrefix(tok, "q4.") || strings.HasPrefix(tok, "q6.") || strings.HasPrefix(tok, "qr."):
 		f := strings.Split(tok, ".")
 		if len(f) != 3 {
 			e.bad = "badscript"
@@ -384,7 +397,7 @@ func (e *executor) stepAt(toks []string, i int) int {
 		var inner []string
 		isInner := func(t string) bool {
 			return strings.HasPrefix(t, "f.") || strings.HasPrefix(t, "r.") || strings.HasPrefix(t, "x.") ||
-				strings.HasPrefix(t, "b4.") || strings.HasPrefix(t, "b6.") || t == "s"
+				strings.HasPrefix(t, "b4.") || strings.HasPrefix(t, "b6.") || strings.HasPrefix(t, "br.") || t == "s"
 		}
 		for ; j < len(toks) && isInner(toks[j]); j++ {
 			inner = append(inner, toks[j])
@@ -440,6 +453,65 @@ func (e *executor) stepAt(toks []string, i int) int {
 		e.lastNW = time.Now()
 		pr.beginDone = e.lastNW
 		return j + 1
+	case strings.HasPrefix(tok, "vdr."):
+		// Session.ValidateDefaultRouter(peer p): Ping(peer) and then the internal ping with the ROUTER's IP
+		// as source; a responder inside WriteTo answers every echo request to the request's own source
+		// address (so the second reply is addressed to the router's IP, not to the host's).
+		p, err := strconv.Atoi(tok[4:])
+		if err != nil || e.pings[p] != nil {
+			e.bad = "badscript"
+			return i + 1
+		}
+		type req struct {
+			id  int
+			rep []byte
+		}
+		var reqs []req
+		e.hconn.setHook(func(frame []byte) error {
+			dst, id, ok := decodeEchoRequest(frame)
+			if !ok || dst != peerIP4(p) || len(frame) < 34 {
+				return nil
+			}
+			srcIP, _ := netip.AddrFromSlice(frame[14+12 : 14+16])
+			rep := lib.MkEther(net.HardwareAddr(frame[6:12]), peerMAC(p), 0x0800,
+				lib.MkIP4(peerIP4(p), srcIP, 1, 64, lib.MkICMPEcho(0, 0, uint16(id), 1, []byte("vdr"))))
+			e.parseFrame(rep)
+			reqs = append(reqs, req{id, rep})
+			return nil
+		})
+		verr := e.sess.ValidateDefaultRouter(packet.Addr{MAC: peerMAC(p), IP: peerIP4(p)})
+		e.hconn.setHook(nil)
+		e.conn.Take()
+		n := len(reqs)
+		var rs []string
+		switch {
+		case verr == nil && n == 2:
+			rs = []string{"nil", "nil"}
+		case verr == nil && n == 3:
+			rs = []string{"nil", "timeout", "nil"}
+		case errors.Is(verr, packet.ErrNotRedirected) && n == 3:
+			rs = []string{"nil", "timeout", "timeout"}
+		case errors.Is(verr, packet.ErrTimeout) && n == 1:
+			rs = []string{"timeout"}
+		default:
+			e.bad = fmt.Sprintf("vdr-unexpected:%v/%d", verr, n)
+			return i + 1
+		}
+		now := time.Now()
+		for k, rq := range reqs {
+			pid := p + 500*k
+			pr := &pingRun{p: pid, fromRouter: k > 0, mode: 'g', tmoTok: "2000", id: rq.id, hookID: -1, res: rs[k], waited: true,
+				start: now, beginDone: now, lastNW: now, timeout: 2 * time.Second}
+			e.pings[pid] = pr
+			e.order = append(e.order, pr)
+			fam := "4"
+			if k > 0 {
+				fam = "r"
+			}
+			e.lin = append(e.lin, fmt.Sprintf("q%s.%d.2000", fam, pid), "r."+lib.Hex(rq.rep), fmt.Sprintf("z.%d.T", pid), fmt.Sprintf("w.%d", pid))
+		}
+		e.lastNW = time.Now()
+		return i + 1
 	case strings.HasPrefix(tok, "asy:"):
 		parts := strings.Split(tok[4:], "|")
 		if len(parts) != 2 {
@@ -527,7 +599,7 @@ func (e *executor) waitBegunHook(pr *pingRun, hookDone chan struct{}) {
 
 func (e *executor) step(tok string) {
 	switch {
-	case strings.HasPrefix(tok, "b4.") || strings.HasPrefix(tok, "b6."):
+	case strings.HasPrefix(tok, "b4.") || strings.HasPrefix(tok, "b6.") || strings.HasPrefix(tok, "br."):
 		pr, ok := parseB(tok)
 		if !ok || e.pings[pr.p] != nil {
 			e.bad = "badscript"
@@ -574,7 +646,7 @@ func (e *executor) step(tok string) {
 		})
 		for _, pr := range prs {
 			e.order = append(e.order, pr)
-			e.lin = append(e.lin, fmt.Sprintf("b%s.%d.%c.%s", map[bool]string{false: "4", true: "6"}[pr.v6], pr.p, pr.mode, pr.tmoTok))
+			e.lin = append(e.lin, fmt.Sprintf("b%s.%d.%c.%s", pr.fam(), pr.p, pr.mode, pr.tmoTok))
 		}
 		e.lastNW = time.Now()
 		for _, pr := range prs {
